@@ -438,9 +438,70 @@ def c16(run):
     report_table_fails(run, "HttpMiddleware", fails)
 
 
-def c11_valueeq(run):
+def c11(run):
+    run.assumptions = [
+        "determinism half: histories over an app that uses HTTP with 3-4 headers (both APIs), key-value and time "
+        "operations (both APIs) and render, driven through the bincode bridge; digests of every returned batch "
+        "(timer ids renamed in order of first appearance) and of the view are compared between repeated runs in "
+        "one process and between separate processes -- an exploration by sampling, not an exhaustive decision",
+        "that the modelled runtime is a function of its input history is what the fifo-refined CruxCore.tla "
+        "shows (every validated trace has out-degree 1); divergence can then only come from outside the model "
+        "(hash order, addresses, clocks), which is what the differential samples"]
     cases, fails, _ = table_check(run, "ValueEq", ["Reflexive"], {}, 2, "ValueEq")
     report_table_fails(run, "ValueEq", fails)
+    # the determinism differential
+    import random
+    rng = random.Random(run.seed)
+    nh = 150 if run.quick else 1500
+    hp = run.path("histories.ndjson")
+    with open(hp, "w") as f:
+        for _ in range(nh):
+            steps = []
+            for _ in range(rng.randint(3, 14)):
+                if rng.random() < 0.5:
+                    steps.append({"s": "ev", "k": rng.randrange(7)})
+                else:
+                    steps.append({"s": "resp", "i": rng.randrange(6)})
+            f.write(json.dumps(steps) + "\n")
+    outs = []
+    nproc = 4 if run.quick else 8
+    for k in range(nproc):
+        op = run.path(f"det{k}.out")
+        rc, o = lib.sh([lib.BIN, "det", hp, op, "2"], timeout=1200)
+        if rc != 0:
+            raise lib.ToolError("det harness failed: " + o[-2000:])
+        outs.append([json.loads(l) for l in open(op)])
+    diffs = 0
+    hist = [json.loads(l) for l in open(hp)]
+    for i in range(nh):
+        variants = []
+        for k in range(nproc):
+            for r in outs[k][i]["runs"]:
+                variants.append(r)
+        ref = {"batches": variants[0]["batches"], "view": variants[0]["view"]}
+        for vnum, r in enumerate(variants[1:]):
+            if {"batches": r["batches"], "view": r["view"]} != ref:
+                diffs += 1
+                if diffs <= 3:
+                    # locate the first differing batch for the report
+                    j = next((j for j, (a, b) in enumerate(zip(variants[0]["batches"], r["batches"])) if a != b), None)
+                    run.violations += 1
+                    p = os.path.join(lib.WORK, "replay", f"{run.prop}-{run.violations}.json")
+                    with open(p, "w") as f:
+                        json.dump({"kind": "det", "property": run.prop, "history": hist[i],
+                                   "first_differing_call": j,
+                                   "run_a": variants[0]["material"][j] if j is not None and j < len(variants[0]["material"]) else None,
+                                   "run_b": r["material"][j] if j is not None and j < len(r["material"]) else None,
+                                   "view_differs": variants[0]["view"] != r["view"]}, f, indent=1)
+                    print(f"VIOLATION property={run.prop} replay={p}")
+                    print(f"  two replays of one history differ at call {j}")
+                else:
+                    run.violations += 1
+                break
+    run.traces += nh * nproc * 2
+    run.sample({"history": hist[0]})
+    run.stages.append({"stage": "determinism differential", "kind": "differential-replay", "histories": nh,
+                       "processes": nproc, "runs_per_process": 2, "histories_with_divergence": diffs})
 
 
 TIMER_INV = ["AtMostOneOutcome", "CompletedOnlyIfAnswered", "ClearedOnlyIfAppCleared", "EarlyClearSendsNothing",
@@ -497,5 +558,5 @@ def c18(run):
             run.stages.append({"stage": "binding-selftest", "spec": "Trace_Timer", "corruptions_rejected": 1})
 
 
-CHECKS = {"C14": c14, "C15": c15, "C16": c16, "C17": c17, "C11": c11_valueeq, "C18": c18, "C08": c08, "C12": c12, "C01": c01, "C02": c02, "C03": c03, "C04": c04, "C05": c05, "C06": c06, "C07": c07,
+CHECKS = {"C14": c14, "C15": c15, "C16": c16, "C17": c17, "C11": c11, "C18": c18, "C08": c08, "C12": c12, "C01": c01, "C02": c02, "C03": c03, "C04": c04, "C05": c05, "C06": c06, "C07": c07,
           "C09": c09, "C13": c13}
